@@ -1,2 +1,35 @@
-(* placeholder until the theorems are integrated *)
-From SE Require Import Spec.QueueSpec.
+(* C16 - The event queue delivers every event exactly once, in order, in bounded batches.
+   Model: Model/EventQueue.v (pkg/event/event.go as a transition system).  Statements:
+   Spec/QueueSpec.v - every one holds for ALL traces: any number of producers with any programs,
+   any channel capacity, any threshold >= 1, any interleaving with ticker and consumer. *)
+From SE Require Import Spec.QueueSpec Proofs.QueueProofs.
+
+Theorem C16_mutex : forall threshold cap programs, stmt_q_mutex threshold cap programs.
+Proof. exact q_mutex_ok. Qed.
+Print Assumptions C16_mutex.
+Theorem C16_conservation : forall threshold cap programs, stmt_q_conservation threshold cap programs.
+Proof. exact q_conservation_ok. Qed.
+Print Assumptions C16_conservation.
+Theorem C16_producer_order : forall threshold cap programs, stmt_q_producer_order threshold cap programs.
+Proof. exact q_producer_order_ok. Qed.
+Print Assumptions C16_producer_order.
+Theorem C16_complete : forall threshold cap programs, stmt_q_complete threshold cap programs.
+Proof. exact q_complete_ok. Qed.
+Print Assumptions C16_complete.
+Theorem C16_batch_bound : forall threshold cap programs, stmt_q_batch_bound threshold cap programs.
+Proof. exact q_batch_bound_ok. Qed.
+Print Assumptions C16_batch_bound.
+Theorem C16_tick_flushes : forall threshold cap programs, stmt_q_tick_flushes threshold cap programs.
+Proof. exact q_tick_flushes_ok. Qed.
+Print Assumptions C16_tick_flushes.
+Theorem C16_progress : forall threshold cap programs, stmt_q_progress threshold cap programs.
+Proof. exact q_progress_ok. Qed.
+Print Assumptions C16_progress.
+
+(* Non-vacuity: two producers, threshold 2, a tick in the middle - a reachable state. *)
+Example C16_trace :
+  exists s, qrun (qinit 2 1 [[[1; 2; 3]]; [[4]]])
+                 [LAcquire 0; LAppend 0; LAppend 0; LSend 0; LRecv; LAppend 0; LRelease 0;
+                  LTickAcquire; LTickSend; LTickRelease; LAcquire 1; LAppend 1; LRelease 1; LRecv] = Some s
+            /\ q_delivered s = [[1; 2]; [3]] /\ q_pending s = [4].
+Proof. eexists. split; [vm_compute; reflexivity|]. split; reflexivity. Qed.
